@@ -12,7 +12,10 @@ def gen_library(run, s, name, n, basis=None, P=1, **kw):
         failing = [r for r, c in res["exit"].items() if c not in (0, 86)]
         if failing:
             tail = coord.tail(res["out"][failing[0]], 12)
-        run.violation("gen_crash:%s:n%d:P%d" % (name, n, P),
+        key = "gen_crash:%s:n%d:P%d" % (name, n, P)
+        if basis is not None and "a" not in basis[0] and "no symbols given" in tail:
+            key = "gen_crash:parameter_free_basis"
+        run.violation(key,
                       "generation of %s n=%d with %d rank(s) did not complete: %s %s\n%s" % (name, n, P, res["status"], res["detail"], tail),
                       {"runname": name, "n": n, "P": P, "basis": basis})
         return None, res
